@@ -126,6 +126,17 @@ partial def evalNof (c : Nof.Ctx) (j : Json) : Except String Nof.Form := do
       let cr ← j.getObjValAs? Bool "cr"
       pure (Nof.gen c m cr)
   | "num" => do pure (Nof.number c (← j.getObjValAs? Nat "mode"))
+  | "fnum" => do
+      -- a function of one number operator (a term without generators whose coefficient is that function of the occupation)
+      let m ← j.getObjValAs? Nat "mode"
+      let kind ← j.getObjValAs? String "kind"
+      let f : Int → Rat ← match kind with
+        | "pow2" => pure fun n => if n ≥ 0 then (2 : Rat) ^ n.toNat else 1 / (2 : Rat) ^ (-n).toNat
+        | "inv" => pure fun n => 2 / (2 * (n : Rat) + 1)                  -- 1 / (N + 1/2)
+        | "abs" => pure fun n => ((n - 1).natAbs : Rat)                   -- |N - 1|
+        | "sq" => pure fun n => ((n : Rat) + 1) ^ 2                       -- (N + 1)^2
+        | k => throw s!"unknown function {k}"
+      pure [{ powers := List.replicate c.n 0, coeff := fun N => GRat.ofRat (f (Nof.Occ.get N m)) }]
   | "const" => do pure (Nof.scalar c (← parseGRat (← j.getObjValAs? String "val")))
   | "mul" => do
       let args ← getArr j "args"
